@@ -595,6 +595,19 @@ def draw_input(ctx, model):
     return X, E
 
 
+def safely(ctx, name, spec, fn, *args):
+    """An exception escaping a test means a routine of the implementation failed during operand
+    preparation (copy, move_qnidx, canonicalise of a consistent chain ...); report, never abort."""
+    try:
+        return fn(*args)
+    except Exception as e:  # noqa: BLE001
+        import traceback
+        tb = traceback.format_exc().strip().splitlines()
+        ctx.run.violation(f"{name}:operand-preparation:unexpected-{type(e).__name__}",
+                          dict(test=name, model=spec, observed=f"{type(e).__name__}: {e}", traceback=tb[-8:]))
+        return None
+
+
 def search(run, rng, quick):
     ctx = Ctx(run, rng, quick)
     rounds = 450 if quick else 4500
@@ -613,16 +626,16 @@ def search(run, rng, quick):
         if rd < 3:
             run.sample(dict(round=rd, model=spec))
         for _ in range(3):
-            got = draw_input(ctx, model)
+            got = safely(ctx, "draw-input", spec, draw_input, ctx, model)
             if got is None:
                 run.count("rejected:no-input")
                 continue
             X, E = got
-            test_full_sweeps(ctx, X, E)
-            test_partial(ctx, X, E)
-            test_compress(ctx, X, E)
-            test_ensure(ctx, X, E)
-        test_variational(ctx, model)
+            safely(ctx, "full-sweeps", spec, test_full_sweeps, ctx, X, E)
+            safely(ctx, "partial", spec, test_partial, ctx, X, E)
+            safely(ctx, "compress", spec, test_compress, ctx, X, E)
+            safely(ctx, "ensure", spec, test_ensure, ctx, X, E)
+        safely(ctx, "variational", spec, test_variational, ctx, model)
     run.cov["evaluations"] = run.cov.get("evaluations", 0) + ctx.evals
     run.cov["distinct_nontrivial"] = len(ctx.distinct)
     run.cov["rule"] = ("one evaluation = one routine call sequence (full sweeps x3, partial canonicalise at one stop site, "
